@@ -1382,6 +1382,7 @@ package scipipe
 //@   loop 0 invariant lockstep[C04]: noJoin(p) ==> portsAdvanced(p, chanSentN(ch) - old(chanSentN(ch)))
 //@   loop 0 invariant zip-files[C04,C08]: noJoin(p) ==> forall x int, i string :: old(chanSentN(ch)) <= x && x < chanSentN(ch) && i in p.inPorts ==> i in chanSentAt(ch, x).InIPs && chanSentAt(ch, x).InIPs[i] == chanInAt(p.inPorts[i].Chan, old(chanRecvN(p.inPorts[i].Chan)) + x - old(chanSentN(ch)))
 //@   loop 0 invariant zip-params[C04,C08]: noJoin(p) ==> forall x int, i string :: old(chanSentN(ch)) <= x && x < chanSentN(ch) && i in p.inParamPorts ==> i in chanSentAt(ch, x).Params && chanSentAt(ch, x).Params[i] == chanInAt(p.inParamPorts[i].Chan, old(chanRecvN(p.inParamPorts[i].Chan)) + x - old(chanSentN(ch)))
+//@   loop 0 invariant maps: inIPs != nil && params != nil
 //@   loop 0 invariant sent-allocated: forall x int :: old(chanSentN(ch)) <= x && x < chanSentN(ch) ==> allocated(chanSentAt(ch, x)) && allocated(chanSentAt(ch, x).InIPs) && allocated(chanSentAt(ch, x).Params)
 //@   loop 0 invariant no-ports-first-round[C04]: len(p.inPorts) == 0 && len(p.inParamPorts) == 0 ==> chanSentN(ch) == old(chanSentN(ch))
 //@   ensures one-task-per-complete-input-set[C04]: noJoin(p) ==> portsAdvancedAtExit(p, chanSentN(ch) - old(chanSentN(ch)))
